@@ -97,6 +97,16 @@ CHECKS.update({
             "TLA+ spec + TLC model checking (safety and liveness) + trace validation of real CLI runs", "5 (C19)"),
 })
 
+CHECKS.update({
+    "C13": ("other", "A resource bound: measurements of the builder's heap at N = 10^5..10^7 keys (counting allocator) are judged by TLC against a bound "
+            "formula without any term in N and against relational non-growth; the structural half (FstBuilder!Retained) is "
+            "model-checked. Not model_checking: TLC evaluates the bound, it does not explore allocator behaviour.",
+            "measurement judged by a TLA+ bound specification (TLC) + model-checked structural invariant", "5 (C13), 7"),
+    "C14": ("other", "A resource bound: peak heap of traversals and set operations over growing FSTs is judged by TLC against bounds in k and the "
+            "longest key only and against non-growth; zero allocations for open/get/contains_key over borrowed and mapped bytes.",
+            "measurement judged by a TLA+ bound specification (TLC)", "5 (C14), 7"),
+})
+
 NOT_YET = {
 }
 
